@@ -58,7 +58,8 @@ uint StatCoder::encodeSymbol(uchar symbol, uchar *text, uint *offset) {
 
 uchar *StatCoder::encodeString(uchar *str, uint strLen, uint *encLen,
                                uint *offset) {
-  uchar *encoded = new uchar[4 * strLen];
+  // encodeSymbol clears the byte after the last complete one
+  uchar *encoded = new uchar[4 * strLen + 1];
   *encLen = 0;
   encoded[*encLen] = 0;
   *offset = 0;
